@@ -384,19 +384,33 @@ def is_width_mask(F, T, n):
     return w
 
 
+def width_mask_of(m):
+    """m == (if w == 0 {0} else {MAX >> (BITS - w)}) -> w, else None."""
+    if m[0] != "ite":
+        return None
+    c, th, el = m[1], m[2], m[3]
+    if not (c[0] == "op" and c[1] == "==" and ("int", 0) in (c[2], c[3])):
+        return None
+    w = c[3] if c[2] == ("int", 0) else c[2]
+    if not (th == ("int", 0) or (th[0] == "def" and th[1].endswith("ZERO"))):
+        return None
+    if not (el[0] == "op" and el[1] == ">>" and el[2][0] == "def" and el[2][1].endswith("MAX")):
+        return None
+    sh = el[3]
+    if not (sh[0] == "op" and sh[1] == "-" and sh[2][0] == "def" and sh[2][1].endswith("BITS") and sh[3] == w):
+        return None
+    return w
+
+
 def mask_term_ok(F, m, b):
-    s = tshow(m)
     if m[0] == "field" and m[2] == "mask":
         return True, "self.mask"
-    if m[0] == "unk":
-        T = simple_env(F, b)
-        for n in walk(b.body):
-            if n.get("k") == "If" and ("If@%s" % n.get("s")) == m[1]:
-                w = is_width_mask(F, T, n)
-                if w is not None and (w == ("call", "BitFieldSliceCore::bit_width", (("var", "self", b.params[0]["id"]),)) or (w[0] == "field" and w[2] == "bit_width")):
-                    return True, "if w == 0 {0} else {MAX >> (BITS - w)} with w = %s" % tshow(w)
-                return False, "validation mask `%s` is not `if w == 0 {0} else {MAX >> (BITS - w)}` over the structure's bit width" % show(F, n)[:200]
-    return False, s
+    w = width_mask_of(m)
+    if w is not None:
+        if w == ("call", "BitFieldSliceCore::bit_width", (("var", "self", b.params[0]["id"]),)) or (w[0] == "field" and w[2] == "bit_width"):
+            return True, "if w == 0 {0} else {MAX >> (BITS - w)} with w = %s" % tshow(w)
+        return False, "validation mask is built from `%s`, not from the structure's bit width" % tshow(w)
+    return False, "validation mask `%s` is neither self.mask nor `if w == 0 {0} else {MAX >> (BITS - w)}`" % tshow(m)[:200]
 
 
 @rule("R06.2", props=["C06", "C12", "C14"], floor=6, title="BitVec iterators index the backend only below its length and yield only positions < len")
